@@ -129,12 +129,16 @@ def explore(prog, body, on_path, max_paths=200000, stats=None, repo=REPO, deadli
                 continue
         finally:
             stats['steps'] = stats.get('steps', 0) + m.steps
-        stack.extend(ctx.siblings)
         npaths += 1
         stats['paths'] = stats.get('paths', 0) + 1
         stats.setdefault('fns', set()).update(m.fns_executed)
         stats.setdefault('summaries', set()).update(m.summaries_used)
-        if on_path(res) is False:
+        try:
+            cont = on_path(res)
+        except Infeasible:
+            cont = True
+        stack.extend(ctx.siblings)
+        if cont is False:
             break
         if npaths >= max_paths:
             raise Unsupported('path limit %d exceeded' % max_paths)
